@@ -278,3 +278,8 @@ mod test {
         }
     }
 }
+
+#[cfg(kani)]
+mod verif_kani {
+    include!(concat!(env!("IPA_VERIF_DIR"), "/kani/lagrange.rs"));
+}
